@@ -88,7 +88,7 @@ StoreOK == s.op = "store" => StoreFails(s.bpp, s.order, s.buf, s.item) = {}
 LoadOK  == s.op = "load"  => LoadFails(s.bpp, s.order, s.buf, s.item) = {}
 IterOK  == (s.m = "it" /\ s.op = "step") =>
              LET N == PixelCount(s.bpp, Len(s.buf))
-                 r == IterStep(s.bpp, s.order, s.buf, N, [pos |-> s.ppos, codes |-> {}, step |-> 0], s.sc, s.ob, 1)
+                 r == IterStep(s.bpp, s.order, s.buf, N, [pos |-> s.ppos, codes |-> {}, step |-> 0, bad |-> {}], s.sc, s.ob, 1)
              IN r.codes = {} /\ r.pos = s.pos
 \* abstraction relation between the iterator's index and the abstract position
 PosRel  == s.m = "it" => s.pos = Min(s.idx, PixelCount(s.bpp, Len(s.buf)))
